@@ -196,37 +196,57 @@ class ReleaseFilter(Flow):
             st = self.add(st, 'in', name)
         return st
 
-    # -- membership of tau in a set-valued expression: True / False / None (unknown)
-    def member(self, st, e):
-        """is tau a member of the value of e?"""
+    # -- membership of an element in a set-valued expression: True / False / None (unknown)
+    # two elements are followed through local sets: the symbolic target tau ('in') and the all-targets marker ('ina')
+    FACT = {'tau': 'in', 'ALL': 'ina'}
+
+    def member(self, st, e, el='tau'):
+        """is `el` (tau or the all-targets marker) a member of the value of e?"""
+        if el == 'ALL' and self.rho['tau_is_all']:
+            el = 'tau'
         ref = ws_ref(e)
         if ref is not None:
             owner = self.sym(st, ref[0])
-            if owner == 'J':
-                if ref[1] == 'todo':
-                    return not self.has(st, 'untodo')
-                if ref[1] == 'doing':
-                    return self.rho['tau_in_own_doing'] or self.has(st, 'released', 'doing')
-                return self.has(st, 'released', 'do')
-            if owner == 'D':
-                if ref[1] == 'todo':
-                    return self.rho['tau_in_dep_todo']
-                if ref[1] == 'doing':
-                    return self.rho['tau_in_dep_doing']
+            if el == 'tau':
+                if owner == 'J':
+                    if ref[1] == 'todo':
+                        return not self.has(st, 'untodo')
+                    if ref[1] == 'doing':
+                        return self.rho['tau_in_own_doing'] or self.has(st, 'released', 'doing')
+                    return self.has(st, 'released', 'do')
+                if owner == 'D':
+                    if ref[1] == 'todo':
+                        return self.rho['tau_in_dep_todo']
+                    if ref[1] == 'doing':
+                        return self.rho['tau_in_dep_doing']
+            else:
+                if owner == 'D':
+                    if ref[1] == 'todo':
+                        return self.rho['all_in_dep_todo']
+                    if ref[1] == 'doing':
+                        return self.rho['all_in_dep_doing']
+                if owner == 'J' and self.others_idle:
+                    return False  # a plain-target node never holds the all-targets marker (organize)
+            if owner == 'other-dep' and self.others_idle:
+                return False
             return None
         if isinstance(e, ast.Name):
             known = any(x[0] == 'set' and x[1] == e.id for x in st)
             if known:
-                return self.has(st, 'in', e.id)
+                if self.has(st, 'unk' + self.FACT[el], e.id):
+                    return None
+                return self.has(st, self.FACT[el], e.id)
             return None
         if isinstance(e, ast.Call) and isinstance(e.func, ast.Attribute) and e.func.attr == 'copy' and not e.args:
-            return self.member(st, e.func.value)
+            return self.member(st, e.func.value, el)
         if isinstance(e, ast.Call) and isinstance(e.func, ast.Name) and e.func.id in ('set', 'list', 'sorted', 'frozenset', 'tuple') and len(e.args) == 1:
-            return self.member(st, e.args[0])
+            return self.member(st, e.args[0], el)
+        if isinstance(e, ast.Call) and isinstance(e.func, ast.Name) and e.func.id in ('set', 'list', 'frozenset', 'tuple') and not e.args:
+            return False
         if isinstance(e, ast.Call) and self.prog.resolve_in(e.func, self.f) == 'dawgie.util.fifo.Unique' and len(e.args) <= 1:
-            return self.member(st, e.args[0]) if e.args else False
+            return self.member(st, e.args[0], el) if e.args else False
         if isinstance(e, ast.BinOp):
-            a, b = self.member(st, e.left), self.member(st, e.right)
+            a, b = self.member(st, e.left, el), self.member(st, e.right, el)
             if isinstance(e.op, ast.BitOr):
                 if a is True or b is True:
                     return True
@@ -246,6 +266,46 @@ class ReleaseFilter(Flow):
     def _track(self, st, name):
         return self.add(self.drop(st, lambda x: x[0] == 'set' and x[1] == name), 'set', name)
 
+    def _setm(self, st, name, el, val):
+        """val: True / False / None (unknown membership of el in local set `name`)"""
+        fact = self.FACT[el]
+        st = self.drop(st, lambda x: x[0] in (fact, 'unk' + fact) and x[1] == name)
+        if val is True:
+            st = self.add(st, fact, name)
+        elif val is None:
+            st = self.add(st, 'unk' + fact, name)
+        return st
+
+    def _combine(self, op, cur, m):
+        """three-valued set operation on one element: cur/m in {True, False, None}"""
+        if op == 'sub':
+            if cur is False or m is True:
+                return False
+            return True if (cur is True and m is False) else None
+        if op == 'and':
+            if cur is False or m is False:
+                return False
+            return True if (cur is True and m is True) else None
+        if op == 'or':
+            if cur is True or m is True:
+                return True
+            return False if (cur is False and m is False) else None
+        raise AssertionError(op)
+
+    def _setop(self, st, name, op, arg_expr):
+        for el in ('tau', 'ALL'):
+            cur = self.member(st, ast.Name(id=name, ctx=ast.Load()), el)
+            m = self.member(st, arg_expr, el)
+            st = self._setm(st, name, el, self._combine(op, cur, m))
+        return st
+
+    def _split_unknown(self, st, name):
+        """an unknown tau-membership is explored both ways (the release obligation is about tau)"""
+        if self.has(st, 'unkin', name):
+            base = self.drop(st, lambda x: x[0] == 'unkin' and x[1] == name)
+            return (base, self.add(base, 'in', name))
+        return (st,)
+
     # -- hooks
     def on_stmt(self, s, st):
         if isinstance(s, ast.Assign) and len(s.targets) == 1 and isinstance(s.targets[0], ast.Name):
@@ -254,31 +314,28 @@ class ReleaseFilter(Flow):
             symv = self.sym(st, v)
             if symv is not None:
                 return (self.bind(st, name, symv),)
-            m = self.member(st, v)
-            if m is not None:
+            m = self.member(st, v, 'tau')
+            ma = self.member(st, v, 'ALL')
+            if m is not None or ma is not None or self._setlike(v):
                 st = self._track(st, name)
-                return (self.setmem(st, name, m),)
+                st = self._setm(st, name, 'tau', m)
+                st = self._setm(st, name, 'ALL', ma)
+                return self._split_unknown(st, name)
             # unknown value: forget what we knew about the name
-            st = self.drop(st, lambda x: x[0] in ('is', 'in', 'set') and x[1] == name)
+            st = self.drop(st, lambda x: x[0] in ('is', 'in', 'ina', 'unkin', 'unkina', 'set') and x[1] == name)
             return (st,)
         if isinstance(s, ast.AugAssign) and isinstance(s.target, ast.Name):
             name = s.target.id
             if any(x[0] == 'set' and x[1] == name for x in st):
-                m = self.member(st, s.value)
-                cur = self.has(st, 'in', name)
-                if isinstance(s.op, ast.Sub):
-                    if m is None and cur:
-                        return (st, self.setmem(st, name, False))
-                    return (self.setmem(st, name, cur and not m),)
-                if isinstance(s.op, ast.BitAnd):
-                    if m is None and cur:
-                        return (st, self.setmem(st, name, False))
-                    return (self.setmem(st, name, cur and bool(m)),)
-                if isinstance(s.op, ast.BitOr):
-                    if m is None:
-                        return (st, self.setmem(st, name, True))
-                    return (self.setmem(st, name, cur or m),)
+                op = {ast.Sub: 'sub', ast.BitAnd: 'and', ast.BitOr: 'or'}.get(type(s.op))
+                if op is None:
+                    raise Undischarged(s, f'unsupported operation on the candidate set: {norm(s)}')
+                return self._split_unknown(self._setop(st, name, op, s.value), name)
         return (st,)
+
+    @staticmethod
+    def _setlike(v):
+        return isinstance(v, ast.Call) and isinstance(v.func, ast.Name) and v.func.id in ('set', 'frozenset', 'list') and len(v.args) <= 1
 
     def _elem(self, st, e):
         """does the element expression denote tau? True / False / None"""
@@ -289,6 +346,17 @@ class ReleaseFilter(Flow):
             return False
         if s == 'ALL':
             return self.rho['tau_is_all']
+        return None
+
+    def _elem_all(self, st, e):
+        """does the element expression denote the all-targets marker?"""
+        s = self.sym(st, e)
+        if s == 'ALL':
+            return True
+        if s == 'tau':
+            return self.rho['tau_is_all']
+        if s == 'other-target':
+            return False if self.others_idle else None
         return None
 
     def on_call(self, call, st):
@@ -302,32 +370,26 @@ class ReleaseFilter(Flow):
         # mutation of a tracked local set
         if isinstance(recv, ast.Name) and any(x[0] == 'set' and x[1] == recv.id for x in st):
             name = recv.id
-            cur = self.has(st, 'in', name)
+            me = ast.Name(id=name, ctx=ast.Load())
             if meth == 'clear':
-                return (self.setmem(st, name, False),)
-            if meth in ('remove', 'discard') and call.args:
-                el = self._elem(st, call.args[0])
-                if el is True:
-                    return (self.setmem(st, name, False),)
-                if el is None and cur:
-                    return (st, self.setmem(st, name, False))
-                return (st,)
-            if meth in ('difference_update',) and call.args:
-                m = self.member(st, call.args[0])
-                if m is None and cur:
-                    return (st, self.setmem(st, name, False))
-                return (self.setmem(st, name, cur and not m),)
-            if meth in ('add',) and call.args:
-                el = self._elem(st, call.args[0])
-                if el is True or el is None:
-                    return (self.setmem(st, name, True),) if el else (st, self.setmem(st, name, True))
-                return (st,)
-            if meth in ('update', 'intersection_update', 'symmetric_difference_update') and call.args:
-                m = self.member(st, call.args[0])
-                if meth == 'update':
-                    if m is None:
-                        return (st, self.setmem(st, name, True))
-                    return (self.setmem(st, name, cur or m),)
+                return (self._setm(self._setm(st, name, 'tau', False), name, 'ALL', False),)
+            if meth in ('remove', 'discard', 'add') and call.args:
+                for el, fn in (('tau', self._elem), ('ALL', self._elem_all)):
+                    hit = fn(st, call.args[0])
+                    cur = self.member(st, me, el)
+                    if meth == 'add':
+                        new = True if hit is True else (cur if hit is False else (True if cur is True else None))
+                    else:
+                        new = False if hit is True else (cur if hit is False else (False if cur is False else None))
+                    st = self._setm(st, name, el, new)
+                return self._split_unknown(st, name)
+            if meth == 'difference_update' and call.args:
+                return self._split_unknown(self._setop(st, name, 'sub', call.args[0]), name)
+            if meth == 'intersection_update' and call.args:
+                return self._split_unknown(self._setop(st, name, 'and', call.args[0]), name)
+            if meth == 'update' and call.args:
+                return self._split_unknown(self._setop(st, name, 'or', call.args[0]), name)
+            if meth in ('symmetric_difference_update', 'pop'):
                 raise Undischarged(call, f'unsupported mutation {meth} of the candidate set')
             return (st,)
         # mutation of a work set of J
@@ -447,14 +509,9 @@ class ReleaseFilter(Flow):
                 ref = ws_ref(r)
                 owner = self.sym(st, ref[0]) if ref else None
                 if el == 'tau':
-                    val = self.member(st, r)
-                elif el == 'ALL' and ref is not None and owner == 'D':
-                    if self.rho['tau_is_all']:
-                        val = self.member(st, r)
-                    else:
-                        val = self.rho['all_in_dep_todo'] if ref[1] == 'todo' else (self.rho['all_in_dep_doing'] if ref[1] == 'doing' else None)
-                elif el == 'ALL' and ref is not None and owner == 'J' and self.rho['tau_is_all']:
-                    val = self.member(st, r)
+                    val = self.member(st, r, 'tau')
+                elif el == 'ALL':
+                    val = self.member(st, r, 'ALL')
                 elif self.others_idle and ref is not None and owner == 'other-dep' and el in ('tau', 'ALL', 'other-target'):
                     val = False  # converse direction: every other queued ancestor is idle for every target
                 elif self.others_idle and ref is not None and owner == 'D' and el == 'other-target':
